@@ -1,6 +1,7 @@
 package mpath
 
 import (
+	"math"
 	"math/big"
 	"reflect"
 	"strings"
@@ -56,6 +57,9 @@ func convertToDecimalIfNumberAndCheck(val any) (wasNumber bool, out decimal.Deci
 	case reflect.Uint, reflect.Uint8, reflect.Uint16, reflect.Uint32, reflect.Uint64:
 		out = decimal.NewFromBigInt(new(big.Int).SetUint64(v.Uint()), 0)
 	case reflect.Float32, reflect.Float64:
+		if f := v.Float(); math.IsNaN(f) || math.IsInf(f, 0) {
+			return false, decimal.Zero
+		}
 		out = decimal.NewFromFloat(v.Float())
 	}
 
